@@ -68,6 +68,16 @@ def single_panel_clause(cl, rng, n, replay):
         elif kind == 1:
             h, f, As = gen_az(rng, naz=int(rng.integers(1, 4)))
             reject_some(rng, h)
+            uneven = (j // 3) % 2 == 0 and len(h.hvsrs) >= 2
+            if uneven:
+                # an uneven rejection history: nothing rejected on the first azimuth, something on the last (every rejected window of every azimuth has its line)
+                first, last = h.hvsrs[0], h.hvsrs[-1]
+                first.valid_window_boolean_mask = np.ones(len(first.valid_window_boolean_mask), dtype=bool)
+                first.valid_peak_boolean_mask = np.ones(len(first.valid_peak_boolean_mask), dtype=bool)
+                k = int(np.flatnonzero(last.valid_window_boolean_mask)[-1])
+                if last.valid_window_boolean_mask.sum() >= 3:
+                    last.valid_window_boolean_mask[k] = False
+                    last.valid_peak_boolean_mask[k] = False
             parts = list(zip(h.hvsrs, As))
         else:
             m = 40
@@ -78,6 +88,11 @@ def single_panel_clause(cl, rng, n, replay):
         opts = dict(plot_valid_curves=bool(rng.integers(0, 2)), plot_invalid_curves=bool(rng.integers(0, 2)), plot_mean_curve=True,
                     plot_frequency_std=bool(rng.integers(0, 2)), plot_peak_mean_curve=bool(rng.integers(0, 2)),
                     plot_peak_individual_valid_curves=bool(rng.integers(0, 2)), plot_peak_individual_invalid_curves=bool(rng.integers(0, 2)))
+        if kind == 1 and uneven:
+            opts["plot_invalid_curves"] = True
+        # every spelling the library's own DISTRIBUTION_MAP declares names the same distribution
+        if (j // 2) % 2:
+            dmc = "log-normal" if dmc == "lognormal" else dmc
         snap = deep_snapshot(h)
         try:
             fig, ax = hvsrpy.plot_single_panel_hvsr_curves(h, distribution_mc=dmc, distribution_fn=dfn, **opts)
